@@ -24,7 +24,7 @@ from geometer.point import (
     join,
     meet,
 )
-from geometer.utils import det, matvec, orth
+from geometer.utils import det, is_multiple, matvec, orth
 
 if TYPE_CHECKING:
     from geometer.shapes import PolytopeTensor
@@ -53,6 +53,12 @@ def crossratio(
     """
     if a == b:
         return np.ones(a.shape[: a.free_indices])
+
+    # positions of a collection where a and b coincide have cross ratio 1 as well
+    equal = None
+    if a.free_indices > 0 and a.shape == b.shape:
+        axes = tuple(range(a.free_indices, a.rank))
+        equal = is_multiple(a.array, b.array, axis=axes, rtol=EQ_TOL_REL, atol=EQ_TOL_ABS)
 
     if (
         isinstance(a, LineTensor)
@@ -128,7 +134,12 @@ def crossratio(
     bc = det(np.stack([*o, b, c], axis=-2))
 
     with np.errstate(divide="ignore", invalid="ignore"):
-        return ac * bd / (ad * bc)
+        result = ac * bd / (ad * bc)
+
+    if equal is not None and np.any(equal):
+        result = np.where(equal, 1, result)
+
+    return result
 
 
 def harmonic_set(a: PointTensor, b: PointTensor, c: PointTensor) -> PointTensor:
